@@ -54,6 +54,42 @@ Proof.
   apply (gate_lazy_sound_dims G g0 g1 gadd gmul gsub gopp G_ring (lookup dims)); assumption.
 Qed.
 
+(* ---- (transpose, dagger) options, executed as coded (Model.gate_opts) ---- *)
+Definition op_dense_opts dims ts (outs inds : list nat) (transpose dagger : bool) gshape (gdata : list G) : list G :=
+  let o := gate_opts transpose dagger in
+  op_dense dims ts outs inds (snd o) gshape (if fst o then map TNExec.gconj gdata else gdata).
+
+Definition check_gate_opts dims ts outs inds transpose dagger gshape gdata (e : Z) dims' ts' (e' : Z) : bool :=
+  glist_eqb (map (gscale (10 ^ e)%Z) (op_dense_opts dims ts outs inds transpose dagger gshape gdata))
+            (map (gscale (10 ^ e')%Z) (dense dims' ts' outs)).
+
+Lemma gentry_conj gshape gdata o n :
+  gentry gshape (map TNExec.gconj gdata) o n = Gate.gconj G TNExec.gconj (gentry gshape gdata) o n.
+Proof.
+  unfold gentry, Gate.gconj. change g0 with (TNExec.gconj g0) at 1. apply map_nth.
+Qed.
+
+(* the executed right-hand side, with the options handled as the code does, is the
+   value of the network whose gate tensor is built as the code does *)
+Theorem op_entry_opts_is_options_gate dims ts inds bnds summed tr dg gshape gdata s :
+  Forall (wf G) ts -> NoDup bnds -> length inds = length bnds ->
+  map (lookup dims) bnds = map (lookup dims) inds ->
+  (forall b, In b bnds -> ~ In b inds /\ ~ In b summed /\ ~ in_net G ts b) ->
+  (forall i, In i inds -> ~ In i summed) ->
+  gvalue dims (opt_gate_tensor G TNExec.gconj tr dg (gentry gshape gdata) inds bnds
+               :: map (reindex G (Gate.rename inds bnds)) ts) (bnds ++ summed) s
+  = op_entry dims ts summed inds (snd (gate_opts tr dg)) gshape
+             (if fst (gate_opts tr dg) then map TNExec.gconj gdata else gdata) s.
+Proof.
+  intros Hw Hnd Hl Hd Hf Ho. unfold gvalue, op_entry, opt_gate_tensor.
+  destruct (fst (gate_opts tr dg)).
+  - rewrite (value_tval_ext G g0 g1 gadd gmul (lookup dims) _
+               (gate_tensor G (snd (gate_opts tr dg)) (gentry gshape (map TNExec.gconj gdata)) inds bnds)).
+    + apply (gate_lazy_sound_dims G g0 g1 gadd gmul gsub gopp G_ring (lookup dims)); assumption.
+    + intros s'. rewrite !gate_tensor_val. destruct (snd (gate_opts tr dg)); cbn [gapply]; symmetry; apply gentry_conj.
+  - apply (gate_lazy_sound_dims G g0 g1 gadd gmul gsub gopp G_ring (lookup dims)); assumption.
+Qed.
+
 Example op_dense_example :
   (* |psi> = sum_ab T[a,b], gate X on label 0 *)
   op_dense [(0, 2); (1, 2)] [arr_tensor [0; 1] [2; 2] [(1,0); (2,0); (3,0); (4,0)]%Z] [0; 1] [0] false
